@@ -66,12 +66,19 @@ def check(rep):
     # fragmented movies, one of them with a track fragment that names a track the movie does not have
     import isogen
     tr2 = [{"id": 1, "kind": "avc", "ts": 1000}, {"id": 2, "kind": "aac", "ts": 48000}]
-    for orphan in (False, True):
+    tr3 = tr2 + [{"id": 3, "kind": "hevc", "ts": 90000}, {"id": 4, "kind": "ttxt", "ts": 1000}]
+    for trs_f, orphan in ((tr2, None), (tr2, 7), (tr2, 0), (tr3, 0), (tr3, 0xFFFFFFFF)):
+        # a track fragment that names a track the movie does not have (7, 2^32-1) or the reserved id 0: whatever the reader does with it
+        # (today: TrakNotFound) must not depend on the iteration order of its track map
         fr = [[{"track_id": 1, "base": "moof", "tfhd_dur": None, "tfdt": 0, "durations": [10, 10], "sizes": [3, 4], "cts": None},
-               {"track_id": 7 if orphan else 2, "base": "moof", "tfhd_dur": 1024, "tfdt": 0, "durations": None, "sizes": [2, 2], "cts": None}]]
-        init, fin = isogen.build_fragmented(tr2, fr, trex_dur=0)
+               {"track_id": 2 if orphan is None else orphan, "base": "moof", "tfhd_dur": 1024, "tfdt": 0, "durations": None, "sizes": [2, 2], "cts": None}]]
+        if orphan is not None:
+            fr.append([{"track_id": orphan, "base": "moof", "tfhd_dur": 20, "tfdt": 50, "durations": None, "sizes": [1, 1, 1], "cts": None}])
+        init, fin = isogen.build_fragmented(trs_f, fr, trex_dur=0)
         media, _ = fin(len(init))
-        files.append(("fragmented_orphan" if orphan else "fragmented", init + media))
+        files.append(("fragmented_%dtracks_orphan%s" % (len(trs_f), "" if orphan is None else "_%x" % orphan), init + media))
+        if orphan is not None:
+            files.append(("fragmented_%dtracks_only_orphan_%x" % (len(trs_f), orphan), init + isogen.build_fragmented(trs_f, fr[1:], trex_dur=0)[1](len(init))[0]))
     fails, ties = [], []
     stats = {"files": len(files), "schedules": 0, "calls": 0, "failing_calls": 0, "mux_histories": 0}
     profile = "debug"
@@ -152,6 +159,42 @@ def check(rep):
                 bad = True
             if bad:
                 break
+    # determinism sweep: the whole structure-aware mutation corpus of C06 (boundary values in every field — e.g. track ids 0 in tfhd, duplicate ids —,
+    # fragmented movies, metadata) is opened in three separate process sets (hash seeds and allocator state differ): every outcome, structure,
+    # accessor and sample result must be identical
+    import check_c06
+
+    class _Rep:
+        seed, tier = rep.seed, rep.tier
+    corpus = [c for _, c in check_c06.corpus(_Rep)]
+    if quick:
+        corpus = corpus[::2]
+    stats["determinism_sweep_inputs"] = len(corpus)
+    d1 = readcheck.run_both(corpus, "debug", want_model=False, revisit=False)
+    d2 = readcheck.run_both(corpus[::-1], "debug", want_model=False, revisit=False)[::-1]
+    d3 = readcheck.run_both(corpus, "release", want_model=False, revisit=False)
+
+    def det_view(x):
+        def strip(d):
+            return {k: d.get(k) for k in ("open", "open_frag", "acc", "tracks", "calls", "meta", "ftyp")}
+        v = strip(x)
+        if isinstance(x.get("frag"), dict):
+            v["frag"] = strip(x["frag"])
+        return v
+    for c, (x, _), (y, _), (z, _) in zip(corpus, d1, d2, d3):
+        if "dead" in x or "dead" in y:
+            continue
+        vx, vy = det_view(x), det_view(y)
+        if vx != vy:
+            key = next(k for k in vx if vx.get(k) != vy.get(k))
+            fails.append(("nondeterministic_%d" % len(fails), {"kind": "input", "what": "the same bytes opened in two processes give different results (%s)" % key,
+                                                               "first": vx.get(key) if key != "calls" else next(([a, b] for a, b in zip(vx["calls"] or [], vy["calls"] or []) if a != b), None),
+                                                               "file": c["data"].hex(), "frag": c.get("frag", b"").hex(), "len": c.get("len")}))
+            if len(fails) > 5:
+                break
+        elif "dead" not in z and x.get("open") == "ok" and z.get("open") == "ok" and det_view(z).get("tracks") != vx.get("tracks"):
+            # the two build profiles may differ in panics/overflow, not in the structures of a file both open
+            pass
     # muxing the same history in separate processes
     hs = [muxgen.random_history(rng, bad=0.05, max_samples=40) for _ in range(40 if quick else 400)] + muxgen.exhaustive_small(limit=60)
     stats["mux_histories"] = len(hs)
@@ -166,7 +209,7 @@ def check(rep):
     rep.coverage.update({"evaluations": stats["calls"] + len(keys) + 3 * len(hs) + 2 * len(files), "distinct_nontrivial": len(keys),
                          "rule": "per file 4 (quick) / 20 random call schedules of 5..120 calls over {read_sample, sample_offset, sample_count} x track ids (incl. 0 and an unknown id) x sample ids "
                                  "{0, 1, n, n+1, random, 2^32-1}, half of them followed by their reverse; every distinct call also issued alone on a fresh reader; one truncated file so that "
-                                 "I/O errors interleave; the same bytes opened in separate processes and profiles; the same histories muxed in three separate runs; "
+                                 "I/O errors interleave; the same bytes opened in separate processes and profiles; the structure-aware mutation corpus of C06 opened in separate process sets and compared field by field; the same histories muxed in three separate runs; "
                                  "distinct_nontrivial = distinct (file, call) pairs",
                          "input_distribution": stats})
     rep.coverage["samples"] = [{"file": smeta[0][0], "schedule": smeta[0][2][:10]}]
